@@ -219,6 +219,36 @@ Example C05_example_huge :
      EChunk 1 2147479552 2147479552; EQ 8193].
 Proof. vm_compute. reflexivity. Qed.
 
+(* uv_write / uv_write2 with more than 4 buffers when uv__malloc fails (operations
+   OWriteNomem / OWrite2Nomem): UV_ENOMEM, and every field of the stream - queues,
+   write_queue_size, flags, POLLOUT, pending queue, oracles - is exactly as before; only
+   the trace and the call counter move.  So a following uv_try_write / uv_write behaves
+   as if the failed call had not happened.  All other theorems quantify over scripts
+   containing these operations too. *)
+Theorem C05_write_enomem_is_noop :
+  forall s bufs, check_before_write s = None -> needs_alloc bufs = true ->
+  same_stream s (api_write_nomem s bufs) /\
+  tr (api_write_nomem s bufs) = ERet (next_id s) UV_ENOMEM :: EWrite (next_id s) (sumN bufs) :: tr s /\
+  next_id (api_write_nomem s bufs) = S (next_id s).
+Proof. exact write_enomem_is_noop. Qed.
+Print Assumptions C05_write_enomem_is_noop.
+
+Theorem C05_write2_enomem_is_noop :
+  forall s bufs, check_before_write2 s = None -> needs_alloc bufs = true ->
+  same_stream s (api_write2_nomem s bufs) /\
+  tr (api_write2_nomem s bufs) =
+    ERet (next_id s) UV_ENOMEM :: EWrite2 (next_id s) :: EWrite (next_id s) (sumN bufs) :: tr s /\
+  next_id (api_write2_nomem s bufs) = S (next_id s).
+Proof. exact write2_enomem_is_noop. Qed.
+Print Assumptions C05_write2_enomem_is_noop.
+
+Example C05_example_enomem :
+  trace (exec (fun _ => []) (init false [AErr 11] 0%Z [] None false)
+              [OWrite [3]; OWriteNomem [1; 1; 1; 1; 1]; OTry [2]; OWriteNomem [1; 1]; ORun]) =
+    [EWrite 0 3; ERet 0 0; EQ 3; EWrite 1 5; ERet 1 UV_ENOMEM; EQ 3; ETry 2 2; ETryRet 2 UV_EAGAIN; EQ 3;
+     EWrite 3 2; ERet 3 0; EQ 5; EChunk 0 0 3; EChunk 3 0 2; ECb 0 0 0; ECb 3 0 0; EQ 0].
+Proof. vm_compute. reflexivity. Qed.
+
 (* The hypotheses are satisfiable / the statements are not vacuous: a run with a
    short write, EAGAIN, EINTR, a zero-length buffer, a queued request, a refused
    try_write and a shutdown. *)
